@@ -196,6 +196,12 @@ def _convert_elem(e, dt):
         if isinstance(e, (float, _np.floating)):
             return BV(int(e), dt)
         if isinstance(e, Z):
+            if getattr(core.ctx(), 'ints_as_Z', False) and not isinstance(e, core.ZB):
+                # unbounded-int representation of a sized integer: range check, no wrap-around modelled
+                info = _np.iinfo(dt)
+                if not e.is_concrete() and builtins.bool(B(z3.Or(e.v < int(info.min), e.v > int(info.max)))):
+                    raise OverflowError('Python integer out of bounds for %s' % dt)
+                return e
             return _py_int_to_bv(e, dt)
         raise Unsupported('cannot convert %r to %s' % (type(e), dt))
     if k == 'b':
@@ -947,7 +953,7 @@ class SymRec(object):
             fdt = dt.fields[name][0]
             sub = fdt.shape
             base = fdt.base
-            fields[name] = _fill(tuple(shape) + tuple(sub), _zero_of(base) if base.kind in 'fiub' else (b'' if base.kind == 'S' else ''))
+            fields[name] = _fill(tuple(shape) + tuple(sub), _zero_of(base) if base.kind in 'fiub' else (_np.bytes_(b'') if base.kind == 'S' else ''))
         object.__setattr__(self, '_fields', fields)
 
     @property
@@ -969,6 +975,8 @@ class SymRec(object):
         fdt = self._dtype.fields[name][0]
         base = fdt.base
         tgt = self._fields[name]
+        if tgt.size == 0 and _np.size(val) == 0:
+            return
         if isinstance(val, _np.ndarray) or isinstance(val, (list, tuple)):
             v = val if isinstance(val, _np.ndarray) else _build_object(list(val))
             v = v.astype(object) if v.dtype != object else v
